@@ -322,5 +322,160 @@ theorem one_fin_init (id : Nat) (up down : List St1) :
     armedOf id (World.init (up.map .op ++ .fin (Fin.new id) :: down.map .op)).chain = 1 := by
   simp [World.init, callsOf_append, armedOf_append, ops_calls, callsOf, armedOf, Fin.new]
 
+/-! ### Part 3: a finalizer at the head of a chain of operators
+
+  `subject.finalize(f).op₁.….opₙ`: the finalizer is transparent for the deliveries, and its
+  marker comes right after what the first trigger itself delivers — whatever the operators
+  below do, in particular when one of them (take, take_while, first, …) had completed the
+  downstream by itself before the source's terminal. -/
+
+theorem elem_run_marker (e : Elem) (s : List FOut) (id : Nat) :
+    e.run (s ++ [.f id]) = ((e.run s).1, (e.run s).2 ++ [.f id]) := by
+  induction s generalizing e with
+  | nil => cases e <;> rfl
+  | cons x r ih => simp [Elem.run, ih, List.append_assoc]
+
+/-- A marker passes every observer below unchanged and keeps its place at the end. -/
+theorem runElems_marker (es : List Elem) (s : List FOut) (id : Nat) :
+    runElems es (s ++ [.f id]) = ((runElems es s).1, (runElems es s).2 ++ [.f id]) := by
+  induction es generalizing s with
+  | nil => rfl
+  | cons e r ih => simp [runElems, elem_run_marker, ih]
+
+theorem elem_run_op (st : St1) (s : List FOut) : ∃ st', (Elem.run (.op st) s).1 = .op st' := by
+  induction s generalizing st with
+  | nil => exact ⟨st, rfl⟩
+  | cons x r ih =>
+    cases x with
+    | f j => simpa [Elem.run, Elem.step] using ih st
+    | n y => simpa [Elem.run, Elem.step] using ih (st.step y).1
+
+/-- Operators stay operators. -/
+theorem runElems_ops (ds : List St1) (s : List FOut) :
+    ∃ ds' : List St1, (runElems (ds.map .op) s).1 = ds'.map .op := by
+  induction ds generalizing s with
+  | nil => exact ⟨[], rfl⟩
+  | cons d r ih =>
+    obtain ⟨d', hd⟩ := elem_run_op d s
+    obtain ⟨r', hr⟩ := ih (Elem.run (.op d) s).2
+    exact ⟨d' :: r', by simp [runElems, hd, hr]⟩
+
+theorem unsubFire_ops (ds : List St1) : unsubFire (ds.map .op) = (ds.map .op, []) := by
+  induction ds with
+  | nil => rfl
+  | cons d r ih => simp [unsubFire, ih]
+
+/-- The world with the armed finalizer `id` on top of operators, next to the same world without it. -/
+def HeadSim (id : Nat) (w1 w0 : World) : Prop :=
+  w1.srcDone = false ∧ w1.slot = true ∧ w1.held = true ∧
+  w0.srcDone = false ∧ w0.slot = true ∧ w0.held = true ∧
+  ∃ ds : List St1, w1.chain = .fin ⟨id, true, 0⟩ :: ds.map .op ∧ w0.chain = ds.map .op
+
+/-- After the first trigger: slot empty, callback gone — for ever silent. -/
+def HeadSpent (id : Nat) (w : World) : Prop :=
+  w.slot = false ∧ ∃ ds : List St1, w.chain = .fin ⟨id, false, 1⟩ :: ds.map .op
+
+theorem headSim_init (id : Nat) (down : List St1) :
+    HeadSim id (World.init (.fin (Fin.new id) :: down.map .op)) (World.init (down.map .op)) :=
+  ⟨rfl, rfl, rfl, rfl, rfl, rfl, down, rfl, rfl⟩
+
+theorem headSim_item {id : Nat} {w1 w0 : World} (h : HeadSim id w1 w0) (v : Val) :
+    HeadSim id (w1.step (.emit (.next v))).1 (w0.step (.emit (.next v))).1 ∧
+      (w1.step (.emit (.next v))).2 = (w0.step (.emit (.next v))).2 := by
+  obtain ⟨a1, a2, a3, b1, b2, b3, ds, c1, c0⟩ := h
+  obtain ⟨sd1, sl1, hd1, ch1⟩ := w1
+  obtain ⟨sd0, sl0, hd0, ch0⟩ := w0
+  simp only at a1 a2 a3 b1 b2 b3 c1 c0
+  subst a1 a2 a3 b1 b2 b3 c1 c0
+  obtain ⟨ds', hds⟩ := runElems_ops ds [.n (.next v)]
+  refine ⟨⟨rfl, rfl, rfl, rfl, rfl, rfl, ds', ?_, ?_⟩, ?_⟩
+  · simp [World.step, runElems, Elem.run, Elem.step, Fin.onNotif, hds]
+  · simp [World.step, hds]
+  · simp [World.step, runElems, Elem.run, Elem.step, Fin.onNotif]
+
+theorem headSim_items {id : Nat} (xs : List Val) : ∀ {w1 w0 : World}, HeadSim id w1 w0 →
+    HeadSim id (w1.run (xs.map fun v => Ev.emit (.next v))).1
+        (w0.run (xs.map fun v => Ev.emit (.next v))).1 ∧
+      (w1.run (xs.map fun v => Ev.emit (.next v))).2 = (w0.run (xs.map fun v => Ev.emit (.next v))).2 := by
+  induction xs with
+  | nil => intro w1 w0 h; exact ⟨h, rfl⟩
+  | cons v r ih =>
+    intro w1 w0 h
+    obtain ⟨h1, e1⟩ := headSim_item h v
+    obtain ⟨h2, e2⟩ := ih h1
+    exact ⟨h2, by simp only [List.map_cons, World.run, e1, e2]⟩
+
+/-- The first trigger: the same deliveries as without the finalizer, then the callback. -/
+theorem headSim_trigger {id : Nat} {w1 w0 : World} (h : HeadSim id w1 w0) (e : Ev)
+    (he : e.isTrigger = true) :
+    HeadSpent id (w1.step e).1 ∧ (w1.step e).2 = (w0.step e).2 ++ [.f id] := by
+  obtain ⟨a1, a2, a3, b1, b2, b3, ds, c1, c0⟩ := h
+  obtain ⟨sd1, sl1, hd1, ch1⟩ := w1
+  obtain ⟨sd0, sl0, hd0, ch0⟩ := w0
+  simp only at a1 a2 a3 b1 b2 b3 c1 c0
+  subst a1 a2 a3 b1 b2 b3 c1 c0
+  have key : ∀ t : Notif, t.isTerm = true →
+      runElems (.fin ⟨id, true, 0⟩ :: ds.map .op) [.n t] =
+        (.fin ⟨id, false, 1⟩ :: (runElems (ds.map .op) [.n t]).1,
+          (runElems (ds.map .op) [.n t]).2 ++ [.f id]) := by
+    intro t ht
+    have h1 : Elem.run (.fin ⟨id, true, 0⟩) [.n t] = (.fin ⟨id, false, 1⟩, [.n t] ++ [.f id]) := by
+      cases t with
+      | next v => cases ht
+      | error e => rfl
+      | complete => rfl
+    simp only [runElems, h1, runElems_marker]
+  cases e with
+  | unsub =>
+    refine ⟨⟨rfl, ds, ?_⟩, ?_⟩
+    · simp [World.step, unsubFire, unsubFire_ops, Fin.fire]
+    · simp [World.step, unsubFire, unsubFire_ops, Fin.fire]
+  | emit n =>
+    cases n with
+    | next v => cases he
+    | error er =>
+      obtain ⟨ds', hds⟩ := runElems_ops ds [.n (.error er)]
+      refine ⟨⟨rfl, ds', ?_⟩, ?_⟩
+      · simp [World.step, key (.error er) rfl, hds]
+      · simp [World.step, key (.error er) rfl]
+    | complete =>
+      obtain ⟨ds', hds⟩ := runElems_ops ds [.n .complete]
+      refine ⟨⟨rfl, ds', ?_⟩, ?_⟩
+      · simp [World.step, key .complete rfl, hds]
+      · simp [World.step, key .complete rfl]
+
+theorem headSpent_step {id : Nat} {w : World} (h : HeadSpent id w) (e : Ev) :
+    HeadSpent id (w.step e).1 ∧ (w.step e).2 = [] := by
+  obtain ⟨h1, ds, h2⟩ := h
+  obtain ⟨sd, sl, hd, ch⟩ := w
+  simp only at h1 h2
+  subst h1 h2
+  cases e with
+  | unsub =>
+    cases hd
+    · exact ⟨⟨rfl, ds, rfl⟩, rfl⟩
+    · refine ⟨⟨rfl, ds, ?_⟩, ?_⟩ <;>
+        simp [World.step, unsubFire, unsubFire_ops, Fin.fire]
+  | emit n =>
+    cases n <;> cases sd <;> exact ⟨⟨rfl, ds, rfl⟩, rfl⟩
+
+theorem headSpent_run {id : Nat} (evs : List Ev) : ∀ {w : World}, HeadSpent id w →
+    (w.run evs).2 = [] := by
+  induction evs with
+  | nil => intro w _; rfl
+  | cons e r ih =>
+    intro w h
+    obtain ⟨h1, e1⟩ := headSpent_step h e
+    simp only [World.run, e1, ih h1, List.append_nil]
+
+/-- A chain of operators alone never writes a marker. -/
+theorem ops_no_marker (id : Nat) (down : List St1) (evs : List Ev) :
+    countF id ((World.init (down.map .op)).run evs).2 = 0 := by
+  have h := run_count id (World.init (down.map .op)) evs
+  have h0 := ops_calls id down
+  have e : (World.init (down.map .op)).chain = down.map .op := rfl
+  rw [e] at h
+  omega
+
 end Finalize
 end Rx
